@@ -247,7 +247,7 @@ struct C15Fragsize : Monitor {
 	World *w;
 	struct Sess {
 		int F = 100; bool n_seen = false;
-		int seq = -1, frag = -1; Bytes buf, cur; bool last_seen = false, off_track = false; int nfrag = 0;
+		int seq = -1, frag = -1; Bytes buf, cur; bool last_seen = false, off_track = false; int nfrag = 0; bool pkt_cut = false;
 		std::map<std::string, Bytes> answered; std::deque<std::string> order;
 	};
 	std::map<int, Sess> sess;
@@ -298,7 +298,7 @@ struct C15Fragsize : Monitor {
 		char b[240];
 		if (seq != x.seq || x.seq < 0) {
 			if (frag != 0) { snprintf(b, sizeof b, "session %d: downstream packet seq %d starts with fragment %d", u.userid, seq, frag); w->S.violate("C15", "numbering.start", b); }
-			x.seq = seq; x.frag = frag; x.buf.clear(); x.cur = data; x.last_seen = false; x.off_track = frag != 0; x.nfrag = 1;
+			x.seq = seq; x.frag = frag; x.buf.clear(); x.cur = data; x.last_seen = false; x.off_track = frag != 0; x.nfrag = 1; x.pkt_cut = false;
 			w->probes["c15.packets"]++;
 		} else if (x.off_track) {
 			return;
@@ -324,7 +324,8 @@ struct C15Fragsize : Monitor {
 		{
 			int qt = m.qd[0].type;
 			int cap = (qt == QT_CNAME || qt == QT_A) ? 120 : (qt == QT_MX || qt == QT_SRV) ? 900 : 4094;
-			if (x.F > cap) { w->probes["c15.last_unjudged_over_capacity"]++; return; }
+			if (x.F > cap) x.pkt_cut = true;        // sticks for the rest of this downstream packet (F may be lowered in mid-packet)
+			if (x.pkt_cut) { w->probes["c15.last_unjudged_over_capacity"]++; return; }
 		}
 		Bytes all = x.buf; all.insert(all.end(), x.cur.begin(), x.cur.end());
 		int zs = zlib_state(all);
